@@ -35,10 +35,12 @@ ASSUMPTIONS = [
 FLOORS = {
     "quick": {"exact-position-checks": 40000, "suffix-groups": 40000, "crlf-cases": 8000,
               "multibyte-before-x": 8000, "mut-position-checks": 8000,
-              "debug-parser-runs": 40000, "bases-with-a-bare-CR": 300},
+              "debug-parser-runs": 40000, "bases-with-a-bare-CR": 300,
+              "runs-on-a-parser-used-before": 30000},
     "thorough": {"exact-position-checks": 500000, "suffix-groups": 500000,
                  "crlf-cases": 100000, "multibyte-before-x": 100000,
-                 "mut-position-checks": 50000, "debug-parser-runs": 500000},
+                 "mut-position-checks": 50000, "debug-parser-runs": 500000,
+                 "runs-on-a-parser-used-before": 300000},
 }
 SHARD_TIMEOUT = {"quick": 600, "thorough": 3000}
 
@@ -222,6 +224,18 @@ class _Sink:
         pass
 
 
+USED = {"n": 0}
+USED_BEFORE = [
+    b'require ["fileinto"];\r\n/* a\r\n b */\r\nif header :is "s" text:\r\nx\r\n.\r\n'
+    b'{ fileinto "a\r\nb"; }\r\n',
+    b'keep;\nkeep;\n\n\nkeep;\n      foo "x";\n',
+    b'if true {\n keep;\n',
+    b'keep; "',
+    b'if anyof (true, not exists ["a", ',
+    b'require "fileinto";\nfileinto :copy',
+]
+
+
 def check_offender(V, toks, cls, gap, x, res: Result, crlf):
     off = toks[gap].pos if gap < len(toks) else len(V)
     prefix = V[:off]
@@ -278,6 +292,21 @@ def check_offender(V, toks, cls, gap, x, res: Result, crlf):
     if first is None:
         return
     data, o = first
+    # the same input on a Parser object that has parsed something else before (several lines,
+    # multi-line tokens, or a failure further down): same report as on a fresh one
+    USED["n"] += 1
+    before = USED_BEFORE[USED["n"] % len(USED_BEFORE)]
+    up = lab.sl_parser.Parser()
+    lab.parse(before, parser=up)
+    ou = lab.parse(data, parser=up)
+    differs = ou.verdict() is not False or (ou.error, ou.error_pos) != (o.error, o.error_pos)
+    res.count("runs-on-a-parser-used-before")
+    res.monitor("used-parser-same-report", differs)
+    if differs:
+        res.violation({"oracle": "report-depends-on-what-the-parser-parsed-before", "class": cls},
+                      {"input": data, "parsed_before_on_the_same_parser": before,
+                       "fresh": repr((o.error, o.error_pos)),
+                       "used": repr((ou.verdict(), ou.error, ou.error_pos))})
     res.count("exact-position-checks")
     res.count("class:%s" % cls)
     if crlf:
